@@ -3,8 +3,9 @@ allocation bookkeeping shared by C13/C02/C01.
 
 * `dora_aot_gc_allocation_trampoline(size in rdi)` -> calls the Rust `gc_alloc(size)` with the
   System V convention.  dora-runtime/src/gc.rs `Gc::alloc` either returns the address of `size`
-  fresh bytes (never null) or ends the process with the OOM trap itself; requests of 2^40
-  bytes or more always end in that trap (the heap is smaller than 1 TiB - assumption).  Two
+  fresh bytes (never null) or ends the process with the OOM trap itself; requests of at
+  least the default maximal heap size (read from dora-runtime/src/runtime/flags.rs, 128 MiB)
+  always end in that trap - the claim and the replays are for the default heap configuration.  Two
   successors: Trap(OOM), or rax = non-null 8-aligned pointer with rbx/rbp/r12-r15 preserved and
   the other registers and xmm clobbered.
   Recorded event: ('alloc_slow', size, result).
@@ -19,10 +20,7 @@ from .sem import BV, SYSV_CLOBBERED, XMM, CaseSplit, Terminal, fresh, simp
 ALLOC_SYMBOL = "dora_aot_gc_allocation_trampoline"
 
 
-REFUSE_FROM = 1 << 40
-
-
-def install_alloc(env, oom_kind, refuse_from=REFUSE_FROM):
+def install_alloc(env, oom_kind, refuse_from):
     lo = env.tld_layout
     top_off = lo["tlab_top"][0]
     end_off = lo["tlab_end"][0]
